@@ -9,3 +9,4 @@ for s in "$@"; do
     [ $rc -ne 0 ] && echo "$out" | grep "^violation\|^VIOLATION\|HARNESS" | head -5
   done
 done
+exit 0
